@@ -373,8 +373,13 @@ func (g *protoGen) newEnum(name string, n int) *tEnum {
 	}
 	prefix := strings.ToUpper(camelToSnake(name)) + "_"
 	if g.rng != nil && g.rng.Intn(3) == 0 {
-		// an option whose short name itself begins with the enum's prefix
-		vals = append(vals, prefix+"AGAIN")
+		// an option whose short name itself begins with the enum's prefix; half of the time what follows the
+		// prefix is the name of an earlier option (ACTIVE and <PREFIX>_ACTIVE are then two options)
+		if g.rng.Intn(2) == 0 && len(vals) > 1 {
+			vals = append(vals, prefix+vals[1])
+		} else {
+			vals = append(vals, prefix+"AGAIN")
+		}
 	}
 	e := &tEnum{Full: g.pkg + "." + name, Name: name, Prefix: prefix, Values: vals}
 	if g.rng != nil && n >= 2 {
